@@ -1146,6 +1146,9 @@ def main(run):
     # the two searches (one per axial order) run one after the other in this process
     res_f = run.explore('fold', fold_cases, run_case, budget_s=1500, workers=1)
     res_s = run.explore('sweep', cs, run_case, budget_s=300)
+    # the csv dump of this property's field: every row is the recorded field of that assembly at that plane
+    from . import reports as _rep
+    run.explore('report-dumps', _rep.cases_dumps(run.tier), _rep.run_dumps_C15, budget_s=300)
     ex = run.extra
     wh = ex.get('where', {})
     sc = ex.get('sweep_checks', {})
@@ -1173,6 +1176,9 @@ def main(run):
 
 
 def replay(body):
+    if str((body.get('scenario') or {}).get('probe', '')).startswith('report-'):
+        from . import reports
+        return reports.replay(body)
     r = guarded(run_case, body['scenario'], 900)
     for v in r['violations']:
         print('VIOLATION property=C15 replay=(inline) kind=%s site=%s %s observed=%s expected=%s'
